@@ -171,11 +171,9 @@ Definition g_remainder (x y : fl) : res fl :=
       Ok (if flt x f_zero then fneg r' else r')).
 
 (** * etl fall-backs and library-written functions *)
-(* _math/abs.hpp abs_impl: abs(float), fabs *)
-Definition e_abs (n : fl) : fl :=
-  if feq n f_zero then f_zero
-  else if fge n f_zero then n
-  else fmul n (of_Z (-1)).
+(* _math/abs.hpp abs_impl for floating-point types: abs(float), fabs:  signbit(n) ? -n : n
+   (the sign of a NaN is not visible at this level, see [raw_e_abs] below) *)
+Definition e_abs (n : fl) : fl := if Bsign n then fneg n else n.
 
 (* copysign_fallback: if (signbit(x) != signbit(y)) return -x; return x; *)
 Definition e_copysign_fb (x y : fl) : fl :=
@@ -331,3 +329,18 @@ Definition enc80 (x : b80) : bool * (Z * Z) :=
   | B754_finite s m e _ =>
       if Zpos m <? 2 ^ 63 then (s, (Zpos m, 0)) else (s, (Zpos m, e + 16383 + 63))
   end.
+
+(** * sign-bit operations on the RAW encoding (sign and payload of a NaN included).
+    A value of a format of width w is its bit pattern 0 <= b < 2^w, bit w-1 is the IEEE sign
+    (binary32: w = 32, binary64: w = 64, x87 extended: w = 80 = sign, 15-bit exponent, 64-bit
+    significand).  Unary minus flips the sign bit of EVERY value (NaNs included, no quieting);
+    __builtin_signbit reads it. *)
+Definition raw_signbit (w b : Z) : bool := Z.testbit b (w - 1).
+Definition raw_neg (w b : Z) : Z := if Z.testbit b (w - 1) then b - 2 ^ (w - 1) else b + 2 ^ (w - 1).
+(* abs_impl (floating-point types): signbit(n) ? -n : n *)
+Definition raw_e_abs (w b : Z) : Z := if raw_signbit w b then raw_neg w b else b.
+(* copysign_fallback: signbit(x) != signbit(y) ? -x : x *)
+Definition raw_e_copysign_fb (w x y : Z) : Z :=
+  if negb (Bool.eqb (raw_signbit w x) (raw_signbit w y)) then raw_neg w x else x.
+(* signbit_fallback: (bit_cast<uintN_t>(arg) >> (N - 1)) != 0 *)
+Definition raw_e_signbit_fb (w b : Z) : bool := e_signbit_bits w b.
